@@ -281,9 +281,26 @@ fn coll_real(c: &CollCase, rng: &mut SplitMix) -> CollReal {
         (Leaf::BoolP(p), None, _) => {
             let g = BoolGenerator::new(*p);
             let b: Vec<bool> = if mutated { mutant_collect(&mt, &g, c.n, rng) } else {
-                match c.variant % 2 {
+                match c.variant % 4 {
                     0 => Bitstring::random_with_probability(c.n, *p, rng).bits,
-                    _ => { let b: Bitstring = g.to_collection_generator(c.n).sample(rng); b.bits }
+                    1 => { let b: Bitstring = g.to_collection_generator(c.n).sample(rng); b.bits }
+                    2 => {
+                        // an element generator that was used with another probability before and reconfigured through its public field
+                        let mut g2 = BoolGenerator::new(if *p > 0.5 { 0.0 } else { 1.0 });
+                        let mut scratch = SplitMix::derive(0xB001, c.n as u64);
+                        let _: Vec<bool> = g2.to_collection_generator(3).sample(&mut scratch);
+                        g2.true_probability = *p;
+                        let b: Bitstring = g2.to_collection_generator(c.n).sample(rng); b.bits
+                    }
+                    _ => {
+                        // ... and the same through a collection generator value that is used, reconfigured (element generator and size) and used again
+                        let mut cg = BoolGenerator::new(if *p > 0.5 { 0.0 } else { 1.0 }).into_collection_generator((c.n + 2) % 5);
+                        let mut scratch = SplitMix::derive(0xB002, c.n as u64);
+                        let _: Vec<bool> = cg.sample(&mut scratch);
+                        cg.element_generator.true_probability = *p;
+                        cg.size = c.n;
+                        cg.sample(rng)
+                    }
                 }
             };
             (bits(&b), None)
